@@ -252,6 +252,44 @@ type SyncMap struct {
 	mu   sync.Mutex
 	keys []any
 	vals []any
+	reg  bool
+}
+
+var (
+	mapsMu  sync.Mutex
+	allMaps []*SyncMap
+)
+
+// register remembers every map ever used so that ResetGlobals can empty package-level ones between runs
+// (a run must not depend on what earlier runs of the same worker process left behind).
+func (m *SyncMap) register() {
+	if !m.reg {
+		mapsMu.Lock()
+		if !m.reg {
+			m.reg = true
+			allMaps = append(allMaps, m)
+		}
+		mapsMu.Unlock()
+	}
+}
+
+// ResetGlobals empties every pool and every sync.Map replacement.
+func ResetGlobals() {
+	ResetPools()
+	mapsMu.Lock()
+	for _, m := range allMaps {
+		m.mu.Lock()
+		m.keys, m.vals = nil, nil
+		m.mu.Unlock()
+	}
+	if len(allMaps) > 4096 {
+		// mostly per-instance maps of finished runs; package-level ones re-register on their next use
+		for _, m := range allMaps {
+			m.reg = false
+		}
+		allMaps = allMaps[:0]
+	}
+	mapsMu.Unlock()
 }
 
 func (m *SyncMap) find(k any) int {
@@ -264,6 +302,7 @@ func (m *SyncMap) find(k any) int {
 }
 
 func (m *SyncMap) Load(k any) (any, bool) {
+	m.register()
 	Yield(siteSyncMap)
 	m.mu.Lock()
 	defer m.mu.Unlock()
@@ -274,6 +313,7 @@ func (m *SyncMap) Load(k any) (any, bool) {
 }
 
 func (m *SyncMap) Store(k, v any) {
+	m.register()
 	Yield(siteSyncMap)
 	m.mu.Lock()
 	defer m.mu.Unlock()
@@ -285,6 +325,7 @@ func (m *SyncMap) Store(k, v any) {
 }
 
 func (m *SyncMap) LoadOrStore(k, v any) (any, bool) {
+	m.register()
 	Yield(siteSyncMap)
 	m.mu.Lock()
 	defer m.mu.Unlock()
@@ -296,6 +337,7 @@ func (m *SyncMap) LoadOrStore(k, v any) (any, bool) {
 }
 
 func (m *SyncMap) LoadAndDelete(k any) (any, bool) {
+	m.register()
 	Yield(siteSyncMap)
 	m.mu.Lock()
 	defer m.mu.Unlock()
@@ -311,6 +353,7 @@ func (m *SyncMap) LoadAndDelete(k any) (any, bool) {
 func (m *SyncMap) Delete(k any) { m.LoadAndDelete(k) }
 
 func (m *SyncMap) Range(f func(k, v any) bool) {
+	m.register()
 	Yield(siteSyncMap)
 	m.mu.Lock()
 	ks, vs := append([]any(nil), m.keys...), append([]any(nil), m.vals...)
